@@ -370,7 +370,7 @@ func (c *caseRun) run() {
 		}
 
 		// ---- add to A (reference), flush A
-		o.Line(fmt.Sprintf("block %d %d", h, blk.PrimaryIndex), "ok")
+		o.Line(fmt.Sprintf("block %d %d %d", h, blk.PrimaryIndex, blk.Timestamp), "ok")
 		if err := safeAddBlock(c.a, blk); err != nil {
 			if pe, ok := err.(*panicErr); ok {
 				// a panic of the real code while applying a block made of valid transactions
@@ -406,13 +406,6 @@ func (c *caseRun) run() {
 			o.Count("op:" + p.kind)
 			o.Count("result:" + p.result)
 			line, obs := p.line, p.result
-			if p.kind == "policy.recoverFund.neo" {
-				if p.result == "fault" {
-					line += " pre=no"
-				} else {
-					line += " pre=ok"
-				}
-			}
 			if isOutOfGas(&aers[0]) {
 				o.Count("result:out-of-gas")
 				if p.model {
